@@ -1,7 +1,8 @@
 //! C19: layout-consistency validation.  A case line is  <use> <type>  with the type in prefix words:
 //!   S k <member>*k | A n <type> | V <Scalar> n | s <Scalar> | E <Scalar>
 //! use: 0 StructuredBuffer<T>, 1 RWStructuredBuffer<T>, 2 ByteAddressBuffer.Load<T>, 3 RWByteAddressBuffer.Store<T>,
-//!      4 BufferAddress.Load<T>, 5 RWBufferAddress.Store<T>
+//!      4 BufferAddress.Load<T>, 5 RWBufferAddress.Store<T>, 6 StructuredBuffer<const T>, 7 RWStructuredBuffer<const T>,
+//!      8 StructuredBuffer<alias of T>, 9 StructuredBuffer<alias of const T>
 //! Output: ACCEPT | UNKNOWN | MISMATCH hs ha ms ma | OFFSET ho mo | REJECT:<front end>
 use crate::common::*;
 
@@ -145,6 +146,11 @@ pub fn render(usage: u32, t: &Ty) -> String {
         1 => s += &format!("RWStructuredBuffer<{}> g_buf;\nvoid f() {{ g_buf.Load(0); }}\n", tname),
         2 => s += &format!("ByteAddressBuffer g_buf;\nvoid f() {{ g_buf.Load<{}>(0); }}\n", tname),
         3 => s += &format!("RWByteAddressBuffer g_buf;\nvoid f() {{ {} v = g_buf.Load<{}>(0); g_buf.Store(16, v); }}\n", tname, tname),
+        // the element type behind a qualifier or an alias: the layouts compared are those of the structure itself
+        6 => s += &format!("StructuredBuffer<const {}> g_buf;\nvoid f() {{ g_buf.Load(0); }}\n", tname),
+        7 => s += &format!("RWStructuredBuffer<const {}> g_buf;\nvoid f() {{ g_buf.Load(0); }}\n", tname),
+        8 => s += &format!("typedef {} TT;\nStructuredBuffer<TT> g_buf;\nvoid f() {{ g_buf.Load(0); }}\n", tname),
+        9 => s += &format!("typedef const {} CT;\nStructuredBuffer<CT> g_buf;\nvoid f() {{ g_buf.Load(0); }}\n", tname),
         4 => s += &format!("BufferAddress g_buf;\nvoid f() {{ g_buf.Load<{}>(0); }}\n", tname),
         _ => s += &format!("RWBufferAddress g_buf;\nvoid f() {{ {} v = g_buf.Load<{}>(0); g_buf.Store(16, v); }}\n", tname, tname),
     }
@@ -303,8 +309,9 @@ pub fn gen_cases(seed: u64, n: usize, thorough: bool) -> Vec<String> {
     leaves.push(Ty::A(3, Box::new(Ty::S(vec![Ty::V("Float32", 3), Ty::Sc("Float16")]))));
     for a in &leaves {
         out.push(line(0, &Ty::S(vec![a.clone()])));
-        for b in &leaves {
+        for (k, b) in leaves.iter().enumerate() {
             out.push(line(0, &Ty::S(vec![a.clone(), b.clone()])));
+            if k % 4 == 0 { out.push(line(6 + (k as u32 / 4) % 4, &Ty::S(vec![a.clone(), b.clone()]))); }
         }
     }
     // sizes around 2^32: the checker computes in 32 bits and must answer "unknown size", never wrap or abort
@@ -339,7 +346,7 @@ pub fn gen_cases(seed: u64, n: usize, thorough: bool) -> Vec<String> {
         }
     }
     for _ in 0..n {
-        let usage = if rng.chance(1, 2) { 0 } else { rng.below(6) as u32 };
+        let usage = if rng.chance(1, 2) { 0 } else { rng.below(10) as u32 };
         let t = if rng.chance(1, 2) {
             gen_aligned(&mut rng, 2)
         } else {
